@@ -99,6 +99,7 @@ def run(a, seed, t_start):
     out_of_reach = []
     for relpath, qual, cname in P["targets"]:
         c = w.contracts[cname]
+        w.clause_filter = lambda pfx, _c=cname: _belongs(pfx, prop, P.get("also", {}).get(_c), False)
         r = verify_function(w, relpath, qual, c)
         gen_time += r.gen_time
         if r.out_of_reach:
